@@ -310,6 +310,9 @@ func (e *SpecEnv) evalRaw(x ast.Expr) *SV {
 			return &SV{V: scalar(types.Typ[types.UntypedNil], Int(0))}
 		}
 		if v, ok := e.vars[n.Name]; ok {
+			if v.Ptr != nil {
+				return &SV{Ptr: v.Ptr, St: e.cur}
+			}
 			if v.V != nil && v.St == nil {
 				return &SV{V: v.V, St: e.cur, Seq: v.Seq}
 			}
@@ -527,6 +530,21 @@ func (e *SpecEnv) evalAddr(x ast.Expr) *SV {
 	switch n := x.(type) {
 	case *ast.ParenExpr:
 		return e.evalAddr(n.X)
+	case *ast.CallExpr:
+		// ghostbytes(obj, "name"): a ghost []byte field attached to any scalar value (e.g. an interface)
+		if id, ok := n.Fun.(*ast.Ident); ok && id.Name == "ghostbytes" && len(n.Args) == 2 {
+			o := e.eval(n.Args[0])
+			nm := e.eval(n.Args[1])
+			if o == nil || nm == nil || o.V == nil || len(o.V.L) == 0 || !nm.V.L[0].IsLit() {
+				e.fail("ghostbytes(obj, \"name\")")
+				return nil
+			}
+			bt := types.NewSlice(types.Typ[types.Byte])
+			p := &Val{T: types.NewPointer(bt), L: []*Term{o.V.L[0]}, Addr: &AddrInfo{Root: bt, Known: true, Key: "ghost:" + nm.V.L[0].S}}
+			return &SV{V: p, St: e.cur}
+		}
+		e.fail("unsupported lvalue %s", exprString(x))
+		return nil
 	case *ast.SelectorExpr:
 		base := e.eval(n.X)
 		if base == nil || base.V == nil {
@@ -817,6 +835,17 @@ func (e *SpecEnv) evalCall(n *ast.CallExpr) *SV {
 		ne.cur = e.old
 		r := ne.eval(n.Args[0])
 		return r
+	case "loopentry":
+		// loopentry(x): the value variable x had when the enclosing (cut) loop was entered
+		id, ok := n.Args[0].(*ast.Ident)
+		if !ok {
+			e.fail("loopentry(x) expects a variable name")
+			return nil
+		}
+		if v, ok := e.g.loopEntryVals[id.Name]; ok {
+			return &SV{V: v, St: e.cur}
+		}
+		return e.eval(id) // not modified by the loop: same value
 	case "lastresult":
 		// lastresult(F): the value returned by the latest call of F that dominates this point
 		id, ok := n.Args[0].(*ast.Ident)
@@ -1117,6 +1146,13 @@ func (e *SpecEnv) evalCall(n *ast.CallExpr) *SV {
 			return svBool(body)
 		}
 		return svBool(Forall([]*Term{r}, body))
+	case "ghostbytes":
+		a := e.evalAddr(n)
+		if a == nil {
+			return nil
+		}
+		bt := types.NewSlice(types.Typ[types.Byte])
+		return &SV{V: e.g.loadQuiet(e.cur, a.V, bt), St: e.cur}
 	case "held":
 		a := e.evalAddr(n.Args[0])
 		if a == nil {
